@@ -64,11 +64,12 @@ PSeek0(err) ==
 \* end of the observation; shaOk / lenOk: the driver's independent concrete oracle (1 / 0);
 \* left: bytes the source (response body within its Content-Length, blob file, inline data) still
 \* had to give when the observation ended (-1 = not observed).  A clean end that leaves bytes of
-\* the source unread has accepted an over-long stream.
-PEnd(shaOk, lenOk, left) ==
+\* the source unread has accepted an over-long stream.  partial: bytes of an incomplete symbol handed
+\* over by the last call when the observation stopped without a further read (failed rewind).
+PEnd(shaOk, lenOk, left, partial) ==
   /\ bad' = IF bad # "" THEN bad
-            ELSE IF \/ (shaOk = 1) # (delivered = hdr.intended)
-                    \/ (lenOk = 1) # (hdr.size = 0 \/ Len(delivered) = hdr.size)
+            ELSE IF \/ (shaOk = 1) # (delivered = hdr.intended /\ partial = 0)
+                    \/ (lenOk = 1) # (hdr.size = 0 \/ (Len(delivered) = hdr.size /\ partial = 0))
                  THEN "oracle-disagree"
             ELSE IF st = "clean" /\ left > 0 THEN "clean-end-before-end-of-source"
             ELSE ""
